@@ -211,16 +211,18 @@ pub fn disarm() {
     saphyr_parser::verif_hooks::work_tick_n(w);
 }
 
-/// Library-internal work bound that goes with a seam budget of 200*(n+16): 150*(n+16).
-
 /// The budget for the library-internal work counter (loop iterations inside scanner, parser and
 /// string input, reported through the guarded hooks) that goes with a seam-call budget.
-/// Seam budget is 200*(n+16); internal work gets 150*(n+16) (observed maximum: 5.7 per char).
+/// Seam budget is 200*(n+16); internal work gets 1000*(n+16). Typical inputs need < 6 per
+/// character, but a flow nest whose every level is a key (`[[[[:]:]:]:]`) makes the scanner
+/// insert a KEY token in front of each level's tokens, 2*depth queue elements moved per
+/// character; the depth is capped at 255 by the scanner, so that is 510 per character at most:
+/// bounded, linear, and twice below this budget.
 fn work_budget_for(budget: u64) -> u64 {
     if budget == u64::MAX || std::env::var_os("SIM_NO_WORK_BUDGET").is_some() {
         u64::MAX
     } else {
-        budget - budget / 4
+        budget.saturating_mul(5)
     }
 }
 
